@@ -45,6 +45,7 @@ def check(ctx: Ctx) -> None:
     r11_utc_ages(ctx)
     r12_stream_faithful(ctx)
     r14_retried_ops_restartable(ctx)
+    r15_answers(ctx)
     r13_bodies_are_bytes(ctx)
 
 
@@ -617,8 +618,13 @@ def r2(ctx: Ctx) -> None:
                     continue
                 # the 404 side may answer False by returning; every other code re-raises
                 bad_returns = [r for r in exx["return"] if not (isinstance(r.ast.value, ast.Constant) and r.ast.value.value is False)]  # type: ignore[union-attr]
-                vx.append(rer and not bad_returns and set(absent) <= NOT_FOUND_CODES)
-                detail = f"branch on 404: {bool(brs)}; codes read as 'absent': {absent}; other errors re-raised: {rer}"
+                # which SIDE of the dispatch re-raises: the side that is NOT the not-found code (an inverted test turns a 403 /
+                # throttling error into 'absent' and surfaces the 404)
+                sides = [(mr, orr) for _b, cs, mr, orr, _mo, _oo in code_branches(ctx, nf, hn) if set(cs) & NOT_FOUND_CODES]
+                sides_ok = bool(sides) and all("reraise" in orr and not mr for mr, orr in sides)
+                vx.append(rer and not bad_returns and set(absent) <= NOT_FOUND_CODES and sides_ok)
+                detail = (f"branch on 404: {bool(brs)}; codes read as 'absent': {absent}; other errors re-raised: {rer}; the re-raise sits "
+                          f"on the non-404 side: {sides_ok}")
         okx = bool(vx) and all(vx)
         ctx.ob("C20.R2", ex_m, "exists: 404 -> False, everything else raises", None, okx, detail, text="exists")
         osk = s3.methods.get("open_seekable")
@@ -979,6 +985,104 @@ def r14_retried_ops_restartable(ctx: Ctx, rid: str = "C20.R14") -> None:
         raise AnalysisError("no closure handed to with_s3_retry found")
 
 
+def r15_answers(ctx: Ctx, rid: str = "C20.R15") -> None:
+    ctx.rule(rid, "an S3 operation answers with what the store said: exists() returns True exactly on the normal completion of the "
+             "HEAD; every read-type operation returns a value computed from its request's response (through the retry wrapper); "
+             "S3RangeFile.seek computes offset / pos + offset / size + offset for SEEK_SET / SEEK_CUR / SEEK_END and returns the "
+             "new position (scenario evaluation, nothing is run)", 8)
+    from .common import concrete_eval, UNKNOWN
+    s3 = ctx.prog.cls(SB + ".S3StorageBackend")
+    ex = s3.methods.get("exists")
+    if ex is None:
+        raise AnalysisError("S3StorageBackend.exists vanished")
+    n_head = 0
+    for nf in op_scopes(ctx, ex):
+        g = ctx.cfg(nf)
+        boto = [c for c in g.calls() if c.callee is not None and c.callee.kind == "prim" and c.callee.name.startswith("boto.") and c.id in g.reachable()]
+        for h in [c for c in boto if c.callee.name == "boto.head_object"]:
+            n_head += 1
+            others = [c.id for c in boto if c is not h]
+            rets = set()
+            for d, l in g.succ[h.id]:
+                if l in NORMAL:
+                    rets |= {x for x in reachable_from(g, d, NORMAL, avoid=others) | {d} if g.nodes[x].kind == "return"}
+            # the first answers after a successful HEAD (returns not separated from it by a branch on something else)
+            dom = ctx.dom(nf, NORMAL)
+            direct = [g.nodes[x] for x in rets if h.id in dom[x]]
+            vals = [r.ast.value for r in direct if r.ast is not None]  # type: ignore[union-attr]
+            ok = bool(vals) and all(isinstance(v, ast.Constant) and v.value is True for v in vals)
+            ctx.ob(rid, nf, "exists(): a successful HEAD answers True", h, ok,
+                   f"answers after the HEAD completed normally: {[norm_text(v) for v in vals]}" + ("" if ok else " - an object that "
+                   "exists is reported missing: validation rejects live files, the collector takes live manifests for gone"))
+    if n_head == 0:
+        raise AnalysisError("exists() no longer issues a HEAD")
+    # read-type operations: the value handed back derives from the response of the operation's own request
+    for name in ("read_file", "get_size", "get_modified_time", "read_file_with_etag", "open_file"):
+        m = s3.methods.get(name)
+        if m is None:
+            raise AnalysisError(f"S3StorageBackend.{name} vanished")
+        scopes = op_scopes(ctx, m)
+        judged = 0
+        for nf in scopes:
+            g = ctx.cfg(nf)
+            sl = ctx.slicer(nf)
+            srcs = [c for c in g.calls() if c.id in g.reachable() and isinstance(c.ast, ast.Call) and (
+                (c.callee is not None and c.callee.kind == "prim" and c.callee.name.startswith("boto."))
+                or _is_retry_call(c.ast) or any(t in scopes and t is not nf for t in ctx.eff.callees(nf, c)))]
+            if not srcs:
+                continue
+            src_ids = {id(c.ast) for c in srcs}
+            for r in [x for x in g.nodes if x.kind == "return" and x.id in g.reachable()]:
+                v = r.ast.value if r.ast is not None else None  # type: ignore[union-attr]
+                if v is None:
+                    ok = False
+                else:
+                    parts = list(v.elts) if isinstance(v, ast.Tuple) else [v]
+                    ok = all(any(id(c) in src_ids for c in sl.origins(p_, r.id)["calls"] | ({p_} if isinstance(p_, ast.Call) else set())) for p_ in parts)
+                judged += 1
+                ctx.ob(rid, nf, f"{name}: the result derives from the response", r, ok,
+                       "computed from the request's response" if ok else
+                       f"`{r.text[:60]}` does not depend on what the store answered", text=f"{name}")
+        if judged == 0:
+            raise AnalysisError(f"S3StorageBackend.{name}: no return found next to its request")
+    # seek dispatch, by scenario
+    rf = ctx.prog.cls(SB + ".S3RangeFile")
+    sk = rf.methods.get("seek")
+    if sk is None:
+        raise AnalysisError("S3RangeFile.seek vanished")
+    g = ctx.cfg(sk)
+    from .common import explore
+    params = [p.name for p in sk.params if p.name != "self"]
+    if len(params) < 2:
+        raise AnalysisError("S3RangeFile.seek lost its (offset, whence) parameters")
+    off, wh = params[0], params[1]
+    stores = [n for n in g.nodes if n.kind == "stmt" and isinstance(n.ast, ast.Assign) and norm_text(n.ast.targets[0]) == "self._pos" and n.id in g.reachable()]
+    import io as _io
+    for label, wv, want in (("SEEK_SET", _io.SEEK_SET, 7), ("SEEK_CUR", _io.SEEK_CUR, 107), ("SEEK_END", _io.SEEK_END, 1007)):
+        env = {off: 7, wh: wv, "io.SEEK_SET": 0, "io.SEEK_CUR": 1, "io.SEEK_END": 2, "os.SEEK_SET": 0, "os.SEEK_CUR": 1, "os.SEEK_END": 2,
+               "self._pos": 100, "self._size": 1000}
+        got = set()
+        for nid, store, _asm in explore(ctx, sk, [g.entry], env, stop=[s_.id for s_ in stores] + [n.id for n in g.nodes if n.kind in ("raise",)]):
+            n_ = g.nodes[nid]
+            if n_ in stores:
+                scen = dict(env)
+                scen.update({k: v for k, v in store.items() if isinstance(k, str)})
+                got.add(concrete_eval(ctx, sk, n_.ast.value, scen, nid))  # type: ignore[union-attr]
+            elif n_.kind == "raise":
+                got.add("raise")
+        ints = {x for x in got if isinstance(x, int) and not isinstance(x, bool)}
+        undecided = any(not isinstance(x, int) and x != "raise" for x in got)
+        # a dispatch the evaluator cannot follow (a table of lambdas) is not judged; a decided wrong position is a violation
+        ok_s = ints <= {want} and (bool(ints) or undecided)
+        ctx.ob(rid, sk, f"seek({label}) stores the right position", stores[0] if stores else None, ok_s,
+               f"offset 7, pos 100, size 1000, whence {label}: new position {sorted(map(repr, got))} (expected {want})"
+               + (" - dispatch not evaluable, not judged" if undecided and not ints else ""), text=label, nontrivial=bool(ints))
+    rets = [r for r in g.nodes if r.kind == "return" and r.id in g.reachable()]
+    ok_r = bool(rets) and all(r.ast is not None and r.ast.value is not None and (
+        norm_text(r.ast.value) == "self._pos" or any(norm_text(r.ast.value) == norm_text(s_.ast.value) for s_ in stores)) for r in rets)  # type: ignore[union-attr]
+    ctx.ob(rid, sk, "seek returns the new position", rets[0] if rets else None, ok_r, "io.RawIOBase.seek contract (BufferedReader relies on it)")
+
+
 def r7(ctx: Ctx, rid: str = "C20.R7") -> None:
     ctx.rule(rid, "backends are stateless: no method other than __init__ stores to an instance attribute (no size / path / listing "
              "cache that a write through another method - or another process - can leave stale)", 2)
@@ -1233,7 +1337,10 @@ def r6(ctx: Ctx) -> None:
                 cmp_ = b.ast
                 if not isinstance(cmp_, ast.Compare):
                     continue
-                past = isinstance(cmp_.ops[0], (ast.GtE, ast.Gt)) and "_pos" in norm_text(cmp_.left)
+                # `pos >= size` (not `>`: a read AT the end must not issue a request either)
+                past = isinstance(cmp_.ops[0], ast.GtE) and "_pos" in norm_text(cmp_.left) and "_size" in norm_text(cmp_.comparators[0])
+                if not past and not (isinstance(cmp_.ops[0], ast.Lt) and "_pos" in norm_text(cmp_.left) and "_size" in norm_text(cmp_.comparators[0])):
+                    continue
                 lab = "true" if past else "false"
                 t = edge_target(g, b, lab)
                 o = edge_target(g, b, "false" if past else "true")
